@@ -295,7 +295,7 @@ func (e *Extractor) runCalculations(profileName string, values map[string]interf
 
 	// Ensure total tokens is set if we have input and output
 	if metrics.TotalTokens == 0 && metrics.InputTokens > 0 && metrics.OutputTokens > 0 {
-		metrics.TotalTokens = metrics.InputTokens + metrics.OutputTokens
+		metrics.TotalTokens = util.SafeInt32(int64(metrics.InputTokens) + int64(metrics.OutputTokens))
 	}
 }
 
